@@ -246,6 +246,31 @@ pub fn table() -> Vec<(&'static str, BuildFn)> {
             (fin(mc, "Lock", Lock::new(p), &ps[..ps.len().min(1)], errs), ps.len().min(1))
         }),
         ("RefLock", |mc, ps, _s, errs| (fin(mc, "RefLock<Vec<T>>", RefLock::new(ps.to_vec()), ps, errs), ps.len())),
+        ("RefLock write-locked", |mc, ps, _s, errs| {
+            // a leaked RefMut leaves the lock write-locked for ever; tracing it may refuse (panic) but
+            // must not return normally while reporting less than the lock holds
+            let p = ps.first().copied().unwrap_or(P::N(0));
+            let one = &ps[..ps.len().min(1)];
+            let mut l = RefLock::new(p);
+            std::mem::forget(gc_arena::barrier::Write::from_mut(&mut l).unlock().borrow_mut());
+            let was_quiet = crate::obs::set_quiet_panics(true);
+            let r = std::panic::catch_unwind(std::panic::AssertUnwindSafe(|| {
+                let mut rec = Rec::default();
+                rec.trace(&l);
+                rec
+            }));
+            crate::obs::set_quiet_panics(was_quiet);
+            if let Ok(mut rec) = r {
+                rec.strong.sort();
+                rec.weak.sort();
+                let (s, w) = expect(one);
+                if rec.strong != s || rec.weak != w {
+                    errs.push(format!("RefLock with a leaked RefMut: trace returned normally and reported {} strong / {} weak pointers, the lock holds {} / {}", rec.strong.len(), rec.weak.len(), s.len(), w.len()));
+                }
+            }
+            std::mem::forget(l);
+            (fin(mc, "Vec (carrier for the write-locked RefLock case)", ps.to_vec(), ps, errs), ps.len())
+        }),
         ("OnceLock set", |mc, ps, _s, errs| {
             let c = std::cell::OnceCell::new();
             let _ = c.set(ps.to_vec());
